@@ -373,6 +373,15 @@ class Ledger:
                 if orig is None or len(om) > len(self.w.mess_seen[orig]["mess"]):
                     orig = n
         if orig is None:
+            if self.fault_or_crash:
+                # a failing unlink(bounce/<n>) after the notice was queued makes the daemon send the same notice again later
+                # (documented consequence of the retry; INTERNALS section 6): accepted under an injected fault / crash only
+                for n, m in self.msgs.items():
+                    om = self.w.mess_seen.get(n, {}).get("mess")
+                    if n != b and om is not None and body_all.endswith(om) and m.get("notices"):
+                        m["notices"].append(b)
+                        res.classes.add("duplicate_notice_after_fault")
+                        return
             res.v("C14", "daemon-queued message %d does not end with a copy of any message with pending failures" % b)
             return
         m = self.msgs[orig]
